@@ -46,7 +46,7 @@ Init ==
   /\ api = [g \in GSet |-> [n \in first(g) |-> FreshNode(0)]]
   /\ run = [n \in AllNodes |-> 0]
   /\ pend = [g \in GSet |-> 0]
-  /\ asg = [g \in GSet |-> [min |-> AsgMinOf[g], max |-> AsgMax0, desired |-> InitNodes, members |-> first(g)]]
+  /\ asg = [g \in GSet |-> [min |-> AsgMinOf[g], max |-> AsgMax0, desired |-> InitNodes, members |-> first(g), terminating |-> {}, linger |-> FALSE]]
   /\ pc = asg
   /\ ctl = [g \in GSet |-> Ctl0(g)]
   /\ accepted = [g \in GSet |-> Never]
